@@ -274,6 +274,12 @@ def make_machine():
         def request(self, req, longlived):
             self._do(req, longlived)
 
+        @rule(req=reqs, first=st.booleans(), longlived=st.booleans())
+        def both_fallback_flags(self, req, first, longlived):
+            """the same request with fallback enabled and disabled, in either order, through one recogniser instance"""
+            self._do(dict(req, fallback=first), longlived)
+            self._do(dict(req, fallback=not first), longlived)
+
         @rule(rs=same_type)
         def burst_same_type(self, rs):
             for r in rs:
